@@ -862,6 +862,12 @@ class TypeQualifier(TypeQualifierBase, metaclass=_TypeQualifier):
 
         if value is None or is_primitive(value) and value._is_uninitialized():
             return intr_op._IntrinsicDeclaration(self, None)
+
+        if isinstance(value, TypeQualifier):
+            # initialization from a runtime value follows the rules of assignments
+            # (no implicit reinterpretation of Signed/Unsigned)
+            self._value.copy()._assign(_decay(value))
+
         return intr_op._IntrinsicDeclaration(self, value)
 
     @_intrinsic_replacement(__bool__)
@@ -1386,6 +1392,12 @@ class Signal(TypeQualifier):
 
         if value is None or is_primitive(value) and value._is_uninitialized():
             return intr_op._IntrinsicDeclaration(self, None, delayed_init)
+
+        if isinstance(value, TypeQualifier):
+            # initialization from a runtime value follows the rules of assignments
+            # (no implicit reinterpretation of Signed/Unsigned)
+            self._value.copy()._assign(_decay(value))
+
         return intr_op._IntrinsicDeclaration(self, value, delayed_init)
 
     #
